@@ -456,8 +456,12 @@ def run_plans(run, comp, plans, timeout=3000, reset_key="op", reset_val="Reset")
     per plan.  If the process dies inside the code under test (a Go fatal error - stack overflow, concurrent map write - cannot be
     recovered), the plan during which it died is pinned down by running the following plans one by one, recorded as a NoCrash
     rejection (its segment is the partial trace plus a crash line, judged by nothing else), and the rest is resumed."""
-    segs, i = [], 0
+    segs, i, crashes = [], 0, 0
     while i < len(plans):
+        if crashes >= 5:     # the process keeps dying: five recorded crashes say it all, the remaining plans are not run
+            run.notes.append("driver %s died %d times; %d remaining plans not run" % (comp, crashes, len(plans) - i))
+            segs += [None] * (len(plans) - i)
+            break
         evs, rc, err = run_driver(run, comp, [c for p in plans[i:] for c in p], timeout=timeout, allow_fail=True)
         cur = split_segments(evs, reset_key, reset_val)
         if rc == 0:
@@ -475,6 +479,7 @@ def run_plans(run, comp, plans, timeout=3000, reset_key="op", reset_val="Reset")
                 crash_rejection(run, comp, msg, plans[i])
                 segs.append(None)
                 i += 1
+                crashes += 1
                 break
             segs += split_segments(one, reset_key, reset_val)
             i += 1
